@@ -266,6 +266,7 @@ struct Sim
   int affinity;   // CPUs in the process affinity mask (0: all of `cores`)
   int spurious;
   int clock_jumps;
+  int clock_ties;  // 1: readings taken by different threads may be equal (two cores reading the clock in the same instant)
   bool replaying;       // decisions come from the recorded lists
   bool pin_cpu;
 
